@@ -9,7 +9,7 @@
                          +price applied; buyer: +assets -price), and the fee inputs charge every
                          owner exactly the fees reported for its orders. *)
 From Coq Require Import ZArith List Bool Lia ZifyBool PArith.
-From PV Require Import Exchange.Arith Exchange.Split Exchange.Fulfill
+From PV Require Import Exchange.Arith Exchange.Split Exchange.Fulfill Exchange.SettleSpec
   Proofs.ArithProofs Proofs.SplitProofs Proofs.FulfillProofs Proofs.FulfillSteps Proofs.FulfillShape.
 Import ListNotations.
 Open Scope Z_scope.
@@ -478,4 +478,38 @@ Proof.
   - unfold build in H. destruct (validate_can_settle asks bids) eqn:Hv; [|discriminate].
     destruct (validate_can_settle_sides _ _ Hv) as (AD' & PD' & S1 & S2).
     split; [eapply Forall_impl; [|exact S1]|eapply Forall_impl; [|exact S2]]; intros o (E & _); exact E.
+Qed.
+
+(** The seller's ratio fee is the ceiling of price applied * fee / price of the ratio. *)
+Lemma ratio_fee_ceiling rt pd p fd amt :
+  ratio_fee rt pd p = Ok (fd, amt) -> 0 < r_p rt -> 0 <= r_f rt -> 0 <= p ->
+  fd = r_fd rt /\ r_pd rt = pd /\ r_p rt * (amt - 1) < p * r_f rt <= r_p rt * amt.
+Proof.
+  unfold ratio_fee. intros H Hrp Hrf Hp.
+  destruct (Pos.eqb_spec (r_pd rt) pd) as [Epd|]; cbn [negb] in H; [|discriminate].
+  destruct (apply_loosely_chk (r_p rt) (r_f rt) p) as [[[a b]|]|] eqn:E; inversion H; subst; clear H.
+  split; [reflexivity|]. split; [reflexivity|].
+  unfold apply_loosely_chk in E. replace (r_p rt =? 0) with false in E by lia.
+  unfold chk in E. destruct (int_ok (p * r_f rt)); cbn [obind] in E; [|discriminate].
+  unfold quo_rem in E.
+  destruct (int_ok _); cbn [obind] in E; [|discriminate]. inversion E; subst; clear E.
+  destruct (apply_loosely_ceiling (r_p rt) (r_f rt) p Hrp Hrf Hp) as (x & r & Ha & Hc & _).
+  unfold apply_loosely, quo_rem in Ha. replace (r_p rt =? 0) with false in Ha by lia.
+  inversion Ha; subst. exact Hc.
+Qed.
+
+(** Without distinct order ids the reported list can lose an order: [populate] recognises the
+    partially filled order by its id, so an ask with the id of the partially filled bid is
+    reported as "the partial order" first and then overwritten.  (The keeper only ever passes
+    distinct stored ids: ValidateBasic and the order store.) *)
+Lemma build_sums_needs_distinct_ids :
+  exists asks bids s,
+    build asks bids (Ok None) = Ok s /\
+    sumz (ask_part fo_price) (fills_of s) <> sumz (bid_part (fun f => o_price (fo_order f))) (fills_of s).
+Proof.
+  exists [ {| o_id := 3; o_ask := true; o_owner := 1%positive; o_ad := 1%positive; o_assets := 10;
+              o_pd := 2%positive; o_price := 20; o_fees := []; o_partial := false |} ],
+         [ {| o_id := 3; o_ask := false; o_owner := 2%positive; o_ad := 1%positive; o_assets := 25;
+              o_pd := 2%positive; o_price := 50; o_fees := []; o_partial := true |} ].
+  eexists. split; [vm_compute; reflexivity|]. vm_compute. discriminate.
 Qed.
